@@ -62,7 +62,7 @@ func runC13(c *Ctx, r *Run) {
 	r.Require("LIMB-1", 1)
 	r.Require("CMP-1", 1)
 	r.Require("OB-T", 25)
-	r.Require("OT-L", 5)
+	r.Require("OT-L", 3)
 	r.Require("OT-N", 8)
 	r.Require("FS-5", 6)
 	r.Require("SIB-1", 5)
